@@ -81,6 +81,7 @@ CONFIGS = {
 }
 ADDR = re.compile(r"0x[0-9a-fA-F]+")
 KNOWN_TYPE_METHODS = "builtin-instance-proxy-has-type-methods"
+KNOWN_POLICY_PROBE = "policy-probe-evaluates-attribute"
 
 
 # ---------------------------------------------------------------------------------------------- the objects
@@ -271,6 +272,53 @@ class Vec(object):
     def peer(self):
         """an object created on the target's side"""
         return Vec(reversed(self.xs))
+
+
+class Counting(object):
+    """attribute reads with side effects: a property that mutates and then fails, one that mutates and succeeds, and a
+    `__getattr__` that records the PUBLIC names it is asked for (rpyc's own identity / policy probes look up other
+    names: `____id_pack__`, `__name__`, `____conn__`, `exposed_<name>`) and then fails"""
+
+    def __init__(self, seed):
+        self.n = seed % 3
+        self.asked = []
+        self.m = 0
+
+    @property
+    def p(self):
+        self.n += 1
+        raise AttributeError("p is not available")
+
+    @property
+    def ok_p(self):
+        self.m += 1
+        return self.m
+
+    @ok_p.setter
+    def ok_p(self, v):
+        self.m = v if type(v) is int else -1
+
+    def __getattr__(self, name):
+        if not name.startswith("_") and not name.startswith("exposed_"):
+            self.asked.append(name)
+        raise AttributeError(name)
+
+    def touch(self, by=1):
+        self.m += by
+        return (self.n, self.m)
+
+
+class Probed(object):
+    """a permitted name `q` that has an `exposed_q` twin: `_check_attr` probes hasattr(obj, 'q') before the access"""
+
+    def __init__(self):
+        self.n = 0
+        self.exposed_q = "twin"
+
+    @property
+    def q(self):
+        self.n += 1
+        return self.n
 
 
 class CustomError(Exception):
@@ -485,7 +533,7 @@ def gen_squares(n, fail_at=None):
         yield i * i
 
 
-KINDS = ["list", "dict", "set", "bytearray", "deque", "generator", "bytesio", "vec", "pairs",
+KINDS = ["list", "dict", "set", "bytearray", "deque", "generator", "bytesio", "vec", "pairs", "counting",
          "shape-call", "shape-seq", "shape-ctx", "shape-ops"]
 
 
@@ -516,6 +564,8 @@ def make_object(kind, seed):
         return Vec(r.range(-4, 9) for _ in range(1 + r.below(5)))
     if kind == "pairs":
         return Pairs(r.below(1000))
+    if kind == "counting":
+        return Counting(r.below(1000))
     if kind in SHAPES:
         return SHAPES[kind](r.below(1000))
     raise ValueError(kind)
@@ -545,7 +595,7 @@ def snap(o, depth=0):
         return ("bytearray", bytes(o).hex())
     if t is collections.deque:
         return ("deque", [snap(x, depth + 1) for x in o], o.maxlen)
-    if t is Vec or t is Pairs or t in SHAPES.values():
+    if t is Vec or t is Pairs or t is Counting or t is Probed or t in SHAPES.values():
         return (t.__name__, sorted((k, repr(snap(v, depth + 1))) for k, v in vars(o).items()))
     if t is io.BytesIO:
         return ("BytesIO", True) if o.closed else ("BytesIO", False, o.getvalue().hex(), o.tell())
@@ -718,9 +768,10 @@ class WireCheck(object):
                 K = lambda **kw: "%d%s" % (len(kw), "".join(" %s %s" % (name_tok(k), self.pyval_text(v, ids)) for k, v in kw.items()))
                 N = name_tok
                 # attribute access
-                # a missing attribute is asked for twice: `__getattribute__` raises AttributeError, Python falls back
-                # to `__getattr__`, which asks again
-                do("getattr missing", lambda: p.some_name, [("T", "getattr " + N("some_name")), ("T", "getattr " + N("some_name"))])
+                # a missing attribute is asked for ONCE (the model's wireOf): a second request would evaluate a failing
+                # property / __getattr__ of the target a second time
+                do("getattr missing", lambda: p.some_name, [("T", "getattr " + N("some_name"))])
+                do("hasattr missing", lambda: hasattr(p, "other_name"), [("T", "getattr " + N("other_name"))])
                 do("getattr", lambda: p.__hash__ and p.__init__, [])
                 do("getattr present", lambda: p.__sizeof__, [("T", "getattr " + N("__sizeof__"))])
                 do("getattr __doc__", lambda: p.__doc__, [("T", "getattr " + N("__doc__"))])
@@ -868,6 +919,11 @@ def build_ops():
         O("iterate-partial", lambda o: take_two(o), (), [("get", "__iter__")]),
         O("buffiter", None, ("chunk", "maxchunk", "factor"), [("get", "__iter__")]),
         O("with", lambda o: with_block(o), (), [("get", "__enter__")]),
+        O("hasattr", lambda o, n: hasattr(o, n), ("attrname",), None),
+        O("getattr-default", lambda o, n, d: getattr(o, n, d), ("attrname", "value"), None),
+        # leaving a `with` block WITHOUT an exception spelt out, and with other falsy first operands (the handler tests
+        # truthiness): all of them reach the target's __exit__ as they are
+        O("exit-falsy", lambda o, v: o.__exit__(v, None, None), ("falsy",), [("get", "__exit__")], kinds=["vec", "bytesio", "shape-ctx"]),
         O("getattr", lambda o, n: getattr(o, n), ("attrname",), None),
         O("setattr", lambda o, n, v: setattr(o, n, v), ("attrname", "value"), None),
         O("delattr", lambda o, n: delattr(o, n), ("attrname",), None),
@@ -939,6 +995,7 @@ METHODS = {
     "vec": [("scale", ("smallint",)), ("scale", ("smallint", "kw:offset")), ("scale", ("smallint", "smallint", "value", "kw:z")),
             ("boom", ()), ("boom", ("excname", "value")), ("peer", ()), ("exposed_secret", ()), ("_coerce", ("value",))],
     "shape-call": [("describe", ())], "shape-seq": [("describe", ())], "shape-ctx": [("describe", ())], "shape-ops": [("describe", ())],
+    "counting": [("touch", ()), ("touch", ("smallint",)), ("touch", ("kw:by",)), ("missing_method", ())],
     "pairs": [("read", ()), ("exposed_read", ()), ("bump", ()), ("bump", ("smallint",)), ("exposed_bump", ()),
               ("exposed_bump", ("kw:by",)), ("read", ()), ("exposed_read", ())],
 }
@@ -952,6 +1009,7 @@ ATTRS = {"vec": ["xs", "log", "tag", "norm", "first", "_hidden", "missing", "new
          "deque": ["maxlen", "missing"],
          "shape-call": ["items", "log", "missing"], "shape-seq": ["items", "log", "missing"], "shape-ctx": ["items", "log", "missing"],
          "shape-ops": ["items", "log", "missing"],
+         "counting": ["p", "p", "ok_p", "ok_p", "missing", "other_missing", "n", "m", "asked", "touch"],
          "pairs": ["level", "exposed_level", "mode", "exposed_mode", "level", "exposed_level", "mode", "exposed_mode", "read",
                    "exposed_read", "log", "missing", "_mode"]}
 CHUNKS = [-1, 0, 1, 2, 3, 10, 100]
@@ -1071,6 +1129,8 @@ def pick_operand(tw, r, spec, length):
         return imm(None)
     if spec == "excname":
         return imm(r.choice(["ValueError", "KeyError", "ZeroDivisionError", "StopIteration", "TypeError"]))
+    if spec == "falsy":
+        return imm(r.choice([None, None, 0, "", (), False, 0.0, b"", frozenset()]))
     if spec == "kwname":
         # keyword names that coincide with parameter names a proxy's own methods might use
         return imm(r.choice(["x", "self", "_self", "args", "kwargs", "cls", "name", "obj", "handler", "proxy", "key", "self", "_self"]))
@@ -1109,10 +1169,31 @@ def is_builtin_instance(x):
 
 
 def safe_hasattr(o, n):
+    """hasattr for the harness's own bookkeeping: must not disturb a twin whose attribute reads have side effects"""
+    if type(o) in (Counting, Probed):
+        import inspect
+        try:
+            inspect.getattr_static(o, n)
+            return True
+        except AttributeError:
+            return False
     try:
         return hasattr(o, n)
     except Exception:  # noqa  (a property that raises something else: the attribute exists)
         return True
+
+
+def config_allows(config_name, perm, name):
+    """the attribute policy as the documentation of DEFAULT_CONFIG states it (for names without an `exposed_` twin):
+    used only to decide whether `hasattr` / `getattr(.., default)` - which swallow the refusal - are performed"""
+    if config_name == "classic":
+        return True
+    from rpyc.core.protocol import DEFAULT_CONFIG
+    if perm != "get" and config_name == "default":
+        return False
+    if name.startswith(DEFAULT_CONFIG["exposed_prefix"]) or name in DEFAULT_CONFIG["safe_attrs"]:
+        return True
+    return config_name == "public" and not name.startswith("_")
 
 
 def is_policy_denial(ex):
@@ -1175,7 +1256,7 @@ def gen_sequence(r, kind, n_ops, ops):
         elif c < 30:
             i = [j for j in cands if ops[j].label == "method"][0]
         elif c < 42:
-            i = r.choice([j for j in cands if ops[j].label in ("getattr", "setattr", "delattr")])
+            i = r.choice([j for j in cands if ops[j].label in ("getattr", "setattr", "delattr", "hasattr", "getattr-default", "getattr")])
         elif c < 50:
             i = r.choice([j for j in cands if ops[j].label in ("iterate", "iterate-partial", "buffiter")])
         else:
@@ -1219,8 +1300,8 @@ def run_sequence(kind, config_name, seed, seq, ops, stop_at_first=True, skip_sig
             else:
                 operands = [pick_operand(tw, r, s, length) for s in spec.operands]
                 fn = spec.fn
-                if spec.label in ("getattr", "setattr", "delattr"):
-                    names = [({"getattr": "get", "setattr": "set", "delattr": "del"}[spec.label], operands[0].for_twin)]
+                if spec.label in ("getattr", "setattr", "delattr", "hasattr", "getattr-default"):
+                    names = [({"getattr": "get", "setattr": "set", "delattr": "del", "hasattr": "get", "getattr-default": "get"}[spec.label], operands[0].for_twin)]
                     label = "%s:%s" % (spec.label, operands[0].for_twin)
             for o in operands:
                 tw.operand_origin[o.origin] += 1
@@ -1241,6 +1322,10 @@ def run_sequence(kind, config_name, seed, seq, ops, stop_at_first=True, skip_sig
                 # answered by the namesake (e.g. after `del p.level`, `p.level = v` writes `exposed_level`) - not the
                 # operation the twin would perform; neither run performs it
                 tw.observations["access to a missing name answered by its exposed_ namesake (by design, not the same operation): not performed"] += 1
+                continue
+            if spec.label in ("hasattr", "getattr-default") and not config_allows(config_name, "get", operands[0].for_twin):
+                # both swallow the AttributeError of a refusal: whether the target was asked at all would not show
+                tw.observations["hasattr / getattr-with-default of a name the configuration refuses: not performed"] += 1
                 continue
             if spec.label.startswith("rop:") and type(operands[0].for_twin) in (str, bytes):
                 # `text % proxy`, `bytes + proxy`: the left operand's C implementation consults the buffer / mapping
@@ -1612,12 +1697,34 @@ def keyword_names_case(config_name):
     return steps, problems
 
 
+def policy_probe_case(config_name="public"):
+    """a permitted name `q` with an `exposed_q` twin: `_check_attr` probes hasattr(obj, 'q') before the access, so a
+    property with a side effect runs once more than directly (listed known finding KNOWN_POLICY_PROBE)"""
+    sess = Session(config_name)
+    steps, problems = [], []
+    try:
+        far, twin = Probed(), Probed()
+        p = sess.lend(far)
+        (kp, vp), _ = outcome(lambda: p.q)
+        (kt, vt), _ = outcome(lambda: twin.q)
+        steps.append(("p.q", "%r, the property ran %d x" % ((kp, vp), far.n), "%r, the property ran %d x" % ((kt, vt), twin.n)))
+        if (kp, vp, far.n) != (kt, vt, twin.n):
+            problems.append((0, "p.q where exposed_q exists", "through the proxy %r and the property ran %d x, directly %r and %d x"
+                             % ((kp, vp), far.n, (kt, vt), twin.n), KNOWN_POLICY_PROBE))
+    except Exception as ex:  # noqa
+        problems.append((0, "setup", "could not run: %s" % type(ex).__name__, "twin:policy-probe"))
+    finally:
+        sess.close()
+    return steps, problems
+
+
 def fixed_cases():
     """deterministic cases run every time: (kind, parameters)"""
     out = [("class_instance", list(c)) for c in class_instance_cases()]
     out += [("comparison", [n, cfg]) for n in COMPARISON_PAIRS for cfg in ("classic", "default")]
     out += [("exception_class", [])]
     out += [("keyword_names", [cfg]) for cfg in ("classic", "public")]
+    out += [("policy_probe", ["public"])]
     return out
 
 
@@ -1630,6 +1737,8 @@ def run_fixed(kind, params):
         return exception_class_case()
     if kind == "keyword_names":
         return keyword_names_case(*params)
+    if kind == "policy_probe":
+        return policy_probe_case(*params)
     raise ValueError(kind)
 
 
@@ -1726,6 +1835,9 @@ def correspondence(ctx):
         c.count("fixed-case:%s%s" % (fkind, (":" + ":".join(str(x) for x in params[1:])) if fkind == "class_instance" else ""), len(steps))
         c.signatures.add("fixed:%s:%s" % (fkind, ":".join(str(x) for x in params)))
         for (idx, label, text, sig) in problems:
+            if sig in known_sigs:
+                known_hits[sig] += 1
+                continue
             c.disagreements.append(dict(case=dict(fixed=[fkind, params]), op="%s:%s" % (fkind, label), impl=text[:700], model="(proxy == twin)"))
     for text in caller_side_comparison_observation():
         observations["comparison with a caller-side object as operand (outside the property): " + text] += 1
@@ -1997,7 +2109,13 @@ def _known_probes():
                 "builtin instance is forwarded and fails with AttributeError instead of TypeError" % (v1, v2))
     finally:
         sess.close()
-    return [(KNOWN_TYPE_METHODS, differs, text)]
+    out = [(KNOWN_TYPE_METHODS, differs, text)]
+    steps, problems = policy_probe_case("public")
+    hit = [p_ for p_ in problems if p_[3] == KNOWN_POLICY_PROBE]
+    out.append((KNOWN_POLICY_PROBE, bool(hit),
+                "a permitted attribute `q` that has an `exposed_q` twin is evaluated once by _check_attr's hasattr(obj, 'q') probe "
+                "and once by the access: " + (hit[0][2] if hit else "not reproduced")))
+    return out
 
 
 def replay(case):
